@@ -225,6 +225,7 @@ pub fn build(long_impl: bool, w: usize, p: &[u8], tb: &Tables) -> Mx {
 }
 
 /// `$s` is bound to the simple matcher (distance type u8), `$l` to the block-based one.
+#[allow(unused_macros)]
 macro_rules! on_myers {
     ($m:expr, $x:ident, $simple:expr, $long:expr) => {
         match $m {
